@@ -279,20 +279,66 @@ def complete_dumped(inp, key):
             "order": [int(x) for x in np.random.default_rng(key % 97).permutation(4)], "scalar_sub": bool(len(set(inp["sub"])) == 1 and key % 4 < 2)}
 
 
-def gen_delaunay(rng, idx):
-    for _ in range(200):
-        L = int(rng.integers(8, 13))
-        P = int(rng.integers(6, 15))
-        V = []
-        tries = 0
-        while len(V) < P and tries < 4000:
-            tries += 1
+def _draw_plain_vertices(rng):
+    L = int(rng.integers(8, 13))
+    P = int(rng.integers(6, 15))
+    V = []
+    tries = 0
+    while len(V) < P and tries < 4000:
+        tries += 1
+        p = (int(rng.integers(0, L + 1)), int(rng.integers(0, L + 1)))
+        if _general_position_with(V, p):
+            V.append(p)
+    return (V if len(V) == P else None), L
+
+
+def _draw_fan_vertices(rng):
+    """a hub: a centre ringed by 13..20 lattice points (general position), plus a few other points; the centre is a Delaunay
+    neighbour of (nearly) every ring point, so the mesh has a vertex of high degree"""
+    L = 40
+    K = int(rng.integers(13, 21))
+    c = (20 + int(rng.integers(-2, 3)), 20 + int(rng.integers(-2, 3)))
+    R = float(rng.uniform(11.0, 16.0))
+    th0 = float(rng.uniform(0, 2 * math.pi))
+    V = [c]
+    for k in range(K):
+        for _try in range(200):
+            th = th0 + 2 * math.pi * (k + float(rng.uniform(-0.2, 0.2))) / K
+            r = R + float(rng.uniform(-1.2, 1.2))
+            p = (int(round(c[0] + r * math.sin(th))), int(round(c[1] + r * math.cos(th))))
+            if 0 <= p[0] <= L and 0 <= p[1] <= L and _general_position_with(V, p):
+                V.append(p)
+                break
+        else:
+            return None, L
+    for _extra in range(int(rng.integers(0, 5))):
+        for _try in range(200):
             p = (int(rng.integers(0, L + 1)), int(rng.integers(0, L + 1)))
             if _general_position_with(V, p):
                 V.append(p)
-        if len(V) < P:
+                break
+    if rng.random() < 0.5:  # the hub need not be vertex 0
+        j = int(rng.integers(0, len(V)))
+        V[0], V[j] = V[j], V[0]
+    return V, L
+
+
+def max_degree(V, T):
+    deg = [set() for _ in V]
+    for t in T:
+        for a in t:
+            deg[a].update(x for x in t if x != a)
+    return max(len(d) for d in deg)
+
+
+def gen_delaunay(rng, idx, fan=False):
+    for _ in range(200):
+        V, L = _draw_fan_vertices(rng) if fan else _draw_plain_vertices(rng)
+        if V is None:
             continue
         T = _brute_delaunay(V)
+        if fan and max_degree(V, T) < 13:
+            continue
         hull = _hull_edges(V)
 
         def area_of_containing(p):
@@ -353,8 +399,8 @@ def gen_delaunay(rng, idx):
 def _gen_one(args):
     seed, kind, idx = args
     rng = np.random.default_rng([seed, 6, idx])
-    if kind == "delaunay":
-        return gen_delaunay(rng, idx)
+    if kind in ("delaunay", "fan"):
+        return gen_delaunay(rng, idx, fan=(kind == "fan"))
     return gen_rect(rng, idx, big=(kind == "big"))
 
 
@@ -570,6 +616,7 @@ def run(ctx):
     n_seeded = 300 if quick else 4000
     n_big = 150 if quick else 2500
     n_del = 150 if quick else 2000
+    n_fan = 24 if quick else 300
     ctx.bounds = {
         "exhaustive_position_tables": {"lattice": f"(0..{exh_l})^2", "families(sub sizes, mesh shape)": [[list(a), list(b)] for a, b in families]},
         "seeded_rectangular_in_machine": {"n": n_seeded, "mask": "<=3x3 block in a 5x5 frame", "sub": "1..3 per pixel", "mesh_shapes": [list(s) for s in MESHES],
@@ -578,6 +625,8 @@ def run(ctx):
         "delaunay_validity_machine": {"vertices": del_sizes, "lattice": "(0..3)^2, no three collinear, translated to touch both axes", "simplices": "every set of at most 2n-4 vertex triples"},
         "trace_only_rectangular": {"n": n_big, "mask": "<=4x4 block in a 7x7 frame", "sub": "1..4 per pixel", "mesh_shapes": [list(s) for s in BIG_MESHES]},
         "trace_only_delaunay": {"n": n_del, "vertices": "6..14 lattice points in general position in (0..8..12)^2", "sub_pixels": "20..60, inside and outside the hull"},
+        "trace_only_delaunay_hubs": {"n": n_fan, "vertices": "a centre ringed by 13..20 lattice points + 0..4 others in (0..40)^2, general position, "
+                                                              "a vertex of degree >= 13 guaranteed"},
         "tick_lengths": TAUS, "tick_lengths_delaunay": DEL_TAUS, "rect_jitter_ticks": JIT,
     }
     # ---- the bounded machines
@@ -625,7 +674,7 @@ def run(ctx):
         pairs.append((inst, {"cells": [int(c) for c in d["cells"]], "m": [[int(x) for x in row] for row in d["m"]]}))
     # ---- trace-only instances (beyond the machine's bounds)
     big = _generate(ctx.seed, "big", 100001, n_big)
-    dels = _generate(ctx.seed, "delaunay", 200001, n_del)
+    dels = _generate(ctx.seed, "delaunay", 200001, n_del) + _generate(ctx.seed, "fan", 300001, n_fan)
     pairs += [(b, None) for b in big] + [(d, None) for d in dels]
     groups = [pairs[k : k + 40] for k in range(0, len(pairs), 40)]
     insts, recs = [], []
@@ -653,6 +702,7 @@ def run(ctx):
     for r in recs:
         kinds[r["kind"]] = kinds.get(r["kind"], 0) + 1
     outside = sum(1 for r in recs if r["kind"] == "delaunay" for s in r["sizes"] if s == 1)
+    degs = [max(r["nsizes"]) for r in recs if r["kind"] == "delaunay" and r["nsizes"]]
     inside = sum(1 for r in recs if r["kind"] == "delaunay" for s in r["sizes"] if s == 3)
     if recs:
         k = min(n_exh // 2, len(recs) - 1)
@@ -662,7 +712,8 @@ def run(ctx):
         ctx.sample({"delaunay_record": dl[0]})
     ctx.note(f"Spec: {n_exh} exhaustive + {n_seeded} seeded rectangular instances + {len(nbr_shapes)} neighbour graphs, all replayed ({n_mism} mismatches); "
              f"DelSpec: {rd.init_states} (vertex set, simplex set) pairs judged")
-    ctx.note(f"{len(recs)} records validated by Trace_Mapper ({kinds}); Delaunay sub-pixels inside the hull: {inside}, outside: {outside}; rejected: {len(rej)}")
+    ctx.note(f"{len(recs)} records validated by Trace_Mapper ({kinds}); Delaunay sub-pixels inside the hull: {inside}, outside: {outside}; Delaunay meshes whose largest reported neighbour list has >= 13 entries: "
+             f"{sum(1 for d in degs if d >= 13)} (largest {max(degs) if degs else 0}); rejected: {len(rej)}")
     ctx.assumptions = [
         "positions and vertices lie on a tick lattice; one tick is >= 2^-6 scaled units, so the 1e-8 buffer of overlay_grid (< 1e-6 tick) "
         "cannot move a lattice point across a cell boundary (points are >= 1/6 tick away from interior boundaries); bounding boxes are non-degenerate",
